@@ -388,3 +388,137 @@ static void run_c14(void)
     sim_ledger_check_empty("after ABT_finalize");
 }
 SIM_WORKLOAD("C14", "user-pools", run_c14, 10)
+
+/* ---- scenario "bulk": the pool operations a program can call directly on a user pool that
+ * is not attached to any scheduler yet (ABT_pool_pop_threads / push_threads / pop_thread /
+ * push_thread); for the legacy ABT_pool_def these go through the library's wrappers.  The
+ * library must take exactly as many units out of the pool as it hands to the caller. ---- */
+static void n_pop_many(ABT_pool pool, ABT_thread *threads, size_t max, size_t *num, ABT_pool_context ctx)
+{
+    (void)ctx;
+    size_t k = 0;
+    while (k < max) {
+        urec *r = do_pop(pool);
+        if (!r)
+            break;
+        threads[k++] = r->thread;
+    }
+    *num = k;
+}
+static void n_push_many(ABT_pool pool, const ABT_unit *units, size_t n, ABT_pool_context ctx)
+{
+    (void)ctx;
+    for (size_t i = 0; i < n; i++)
+        do_push(pool, units[i]);
+}
+static volatile int bulk_runs[MAXU];
+static void bulk_fn(void *arg)
+{
+    int i = (int)(long)arg;
+    bulk_runs[i]++;
+    SIM_CHECK(bulk_runs[i] == 1, "once:started-twice", "unit %d started twice", i);
+    sim_progress();
+}
+static void run_c14_bulk(void)
+{
+    memset(&S, 0, sizeof S);
+    memset((void *)bulk_runs, 0, sizeof bulk_runs);
+    wl_env_swarm();
+    ABT_OK(ABT_init(0, NULL));
+    S.legacy = plan_bool();
+    S.recycle = plan_bool();
+    ABT_pool_user_def def = NULL;
+    ABT_pool_def ldef;
+    if (!S.legacy) {
+        ABT_OK(ABT_pool_user_def_create(n_create_unit, n_free_unit, n_is_empty, n_pop, n_push, &def));
+        ABT_OK(ABT_pool_user_def_set_get_size(def, n_get_size));
+        ABT_OK(ABT_pool_user_def_set_pop_many(def, n_pop_many));
+        ABT_OK(ABT_pool_user_def_set_push_many(def, n_push_many));
+        ABT_OK(ABT_pool_create(def, ABT_POOL_CONFIG_NULL, &S.UP[0].pool));
+        ABT_OK(ABT_pool_user_def_free(&def));
+    } else {
+        memset(&ldef, 0, sizeof ldef);
+        ldef.access = ABT_POOL_ACCESS_MPMC;
+        ldef.u_create_from_thread = l_create;
+        ldef.u_free = l_free;
+        ldef.p_init = l_init;
+        ldef.p_get_size = l_get_size;
+        ldef.p_push = l_push;
+        ldef.p_pop = l_pop;
+        ABT_OK(ABT_pool_create(&ldef, ABT_POOL_CONFIG_NULL, &S.UP[0].pool));
+    }
+    /* the second pool slot stays unused: give it a handle that never matches */
+    S.UP[1].pool = ABT_POOL_NULL;
+    ABT_pool pool = S.UP[0].pool;
+    c14_legacy_target = pool;
+    int n = plan_range(1, MAXU);
+    sim_note("C14 bulk %s pool units=%d: ", S.legacy ? "legacy" : "new-style", n);
+    ABT_thread th[MAXU];
+    for (int i = 0; i < n; i++)
+        ABT_OK(ABT_thread_create(pool, bulk_fn, (void *)(long)i, ABT_THREAD_ATTR_NULL, &th[i]));
+    upool *p = &S.UP[0];
+    SIM_CHECK(p->nq == n && p->creates == n, "upool:create-unit-count", "%d units created and pushed, the pool saw %ld creates and holds %d", n, p->creates, p->nq);
+    int rounds = plan_range(1, 4);
+    for (int r = 0; r < rounds; r++) {
+        int queued = p->nq;
+        size_t len = 1 + (size_t)plan_n((uint32_t)n + 2), num = 99;
+        ABT_thread out[MAXU + 4];
+        long pops0 = p->pops;
+        int how = (int)plan_n(3);
+        if (how == 0) {
+            ABT_OK(ABT_pool_pop_threads(pool, out, len, &num));
+        } else if (how == 1) {
+            ABT_OK(ABT_pool_pop_threads_ex(pool, out, len, &num, ABT_POOL_CONTEXT_OP_POOL_OTHER));
+        } else {
+            /* one by one */
+            num = 0;
+            for (size_t k = 0; k < len; k++) {
+                ABT_thread t = ABT_THREAD_NULL;
+                ABT_OK(ABT_pool_pop_thread(pool, &t));
+                if (t == ABT_THREAD_NULL)
+                    break;
+                out[num++] = t;
+            }
+        }
+        size_t want = len < (size_t)queued ? len : (size_t)queued;
+        SIM_CHECK(num == want, "upool:pop-many-count", "popping up to %zu units from a pool of %d returned %zu", len, queued, num);
+        SIM_CHECK(p->pops - pops0 == (long)num, "upool:unit-dropped", "the runtime took %ld units out of the user pool but handed %zu to the caller", p->pops - pops0, num);
+        for (size_t a = 0; a < num; a++) {
+            int known = 0;
+            for (int i = 0; i < n; i++)
+                known |= out[a] == th[i];
+            SIM_CHECK(known, "upool:wrong-translation", "a bulk pop returned a handle that is none of the created work units");
+            for (size_t b = 0; b < a; b++)
+                SIM_CHECK(out[a] != out[b], "upool:unit-popped-twice", "a bulk pop returned the same work unit twice");
+        }
+        size_t sz = 99;
+        ABT_OK(ABT_pool_get_size(pool, &sz));
+        SIM_CHECK(sz == (size_t)queued - num && p->nq == queued - (int)num, "upool:size", "pool size %zu after popping %zu of %d units", sz, num, queued);
+        /* give them back */
+        if (num) {
+            if (plan_bool())
+                ABT_OK(ABT_pool_push_threads(pool, out, num));
+            else
+                for (size_t a = 0; a < num; a++)
+                    ABT_OK(ABT_pool_push_thread(pool, out[a]));
+        }
+        SIM_CHECK(p->nq == queued, "upool:size", "pool holds %d units after they were pushed back, %d expected", p->nq, queued);
+        S.queries++;
+        sim_progress();
+    }
+    /* now let a stream run them */
+    ABT_xstream xs;
+    ABT_OK(ABT_xstream_create_basic(ABT_SCHED_BASIC, 1, &pool, ABT_SCHED_CONFIG_NULL, &xs));
+    for (int i = 0; i < n; i++) {
+        ABT_OK(ABT_thread_free(&th[i]));
+        SIM_CHECK(bulk_runs[i] == 1, "once:not-exactly-once", "unit %d ran %d times", i, bulk_runs[i]);
+    }
+    ABT_OK(ABT_xstream_join(xs));
+    ABT_OK(ABT_xstream_free(&xs));
+    SIM_CHECK(p->creates == n && p->frees == n, "upool:free-unit-count", "%ld units created, %ld freed for %d work units", p->creates, p->frees, n);
+    ABT_OK(ABT_pool_free(&pool));
+    ABT_OK(ABT_finalize());
+    sim_ledger_check_empty("after ABT_finalize");
+    sim_count("c14.bulk_rounds", (uint64_t)S.queries);
+}
+SIM_WORKLOAD("C14", "bulk", run_c14_bulk, 3)
